@@ -100,6 +100,13 @@ func genC17(tier string, seed uint64) *simkit.Plan {
 	ncids := r.Range(2, 6)
 	p.SetKnob("ncids", int64(ncids))
 	faulty := r.Chance(0.5)
+	// one directed trap per plan in a third of the faulty plans: the leader loses
+	// its majority and is at once asked to remove itself. Re-pinning is off in
+	// these plans, otherwise PeerRemove spends the leader's lease re-allocating.
+	leaderTrap := faulty && r.Chance(0.35)
+	if leaderTrap {
+		p.SetKnob("norepin", 1)
+	}
 
 	// a rough belief of who is a member, only to bias the generator towards
 	// meaningful steps; the executor keeps the real model
@@ -142,7 +149,21 @@ func genC17(tier string, seed uint64) *simkit.Plan {
 	if tier == "thorough" {
 		n = r.Range(4, 30)
 	}
+	trapAt := -1
+	if leaderTrap {
+		trapAt = r.Intn(n)
+	}
 	for i := 0; i < n; i++ {
+		if i == trapAt && len(members()) >= 2 {
+			p.AddStep(Step{Op: "isolate", Slot: 100})
+			if r.Chance(0.5) {
+				p.AddStep(Step{Op: "wait", Ms: r.Range(1, 80)})
+			}
+			p.AddStep(Step{Op: "peer_rm", At: 100, Slot: 100})
+			p.AddStep(Step{Op: "wait", Ms: r.Range(100, 3000)})
+			p.AddStep(Step{Op: "heal"})
+			continue
+		}
 		x := r.Intn(100)
 		switch {
 		case x < 22:
@@ -205,7 +226,7 @@ func genC17(tier string, seed uint64) *simkit.Plan {
 					up[slot] = true
 				}
 			}
-		case x < 76 && faulty:
+		case x < 74 && faulty:
 			slot := pickMember()
 			p.AddStep(Step{Op: "crash", Slot: slot})
 			up[slot] = false
@@ -215,6 +236,56 @@ func genC17(tier string, seed uint64) *simkit.Plan {
 			if r.Chance(0.8) {
 				p.AddStep(Step{Op: "start", Slot: slot})
 				up[slot] = true
+			}
+		case x < 84 && faulty && r.Chance(0.6):
+			// directed at the two places where a membership call can give the wrong
+			// answer: a member whose view of the peerset lags (it is cut off while the
+			// others change the membership, then it is asked to undo that change), and
+			// a leader that has just lost its majority and is asked to remove itself
+			// (At/Slot 100 = "whoever leads at that moment")
+			if r.Chance(0.5) {
+				x := pickMember()
+				p.AddStep(Step{Op: "isolate", Slot: x})
+				var non []int
+				for s := 0; s < slots; s++ {
+					if !member[s] {
+						non = append(non, s)
+					}
+				}
+				others := members()
+				via := x
+				for _, m := range others {
+					if m != x {
+						via = m
+					}
+				}
+				if len(non) > 0 && via != x && r.Chance(0.6) {
+					y := non[r.Intn(len(non))]
+					p.AddStep(Step{Op: "join", At: via, Slot: y})
+					p.AddStep(Step{Op: "peer_rm", At: x, Slot: y})
+					member[y], up[y] = true, true
+				} else if via != x {
+					var y = -1
+					for _, m := range others {
+						if m != x && m != via {
+							y = m
+						}
+					}
+					if y >= 0 {
+						p.AddStep(Step{Op: "peer_rm", At: via, Slot: y})
+						p.AddStep(Step{Op: "peer_add", At: x, Slot: y})
+					}
+				}
+				p.AddStep(Step{Op: "wait", Ms: r.Range(100, 3000)})
+				p.AddStep(Step{Op: "heal"})
+			} else {
+				p.AddStep(Step{Op: "isolate", Slot: 100})
+				if r.Chance(0.5) {
+					p.AddStep(Step{Op: "wait", Ms: r.Range(1, 300)})
+				}
+				p.AddStep(Step{Op: "peer_rm", At: 100, Slot: 100})
+				p.AddStep(Step{Op: "wait", Ms: r.Range(100, 3000)})
+				p.AddStep(Step{Op: "heal"})
 			}
 		case x < 84 && faulty:
 			if r.Chance(0.5) {
@@ -282,9 +353,9 @@ type node struct {
 }
 
 type pending struct {
-	name string
-	done chan error
-	step Step
+	name  string
+	done  chan error
+	step  Step
 	apply func(err error, returned bool)
 }
 
@@ -299,16 +370,18 @@ type world struct {
 	ctx   context.Context
 	stop  context.CancelFunc
 	// model
-	member map[int]tri
-	everMember map[int]bool
-	hist   map[int][]*wop // cid index -> writes issued
-	ncids  int
-	tick   int
-	nonce  int
+	member       map[int]tri
+	everMember   map[int]bool
+	hist         map[int][]*wop // cid index -> writes issued
+	ncids        int
+	tick         int
+	nonce        int
 	faultsActive int // cuts in force
 	everFaulted  bool
 	zombies      bool // a peer that may have been removed while it could not hear about it is (or may come) up
-	pend    []*pending
+	pend         []*pending
+	lastLeader   int
+	amnesia      bool // see joinOp
 }
 
 // wop is one write of the history: the model is a register per CID under
@@ -614,7 +687,7 @@ func (w *world) calm() bool {
 // ------------------------------------------------------------------ execution
 
 func execC17(plan *simkit.Plan, run *simkit.Run) {
-	w := &world{run: run, plan: plan, member: map[int]tri{}, everMember: map[int]bool{}, hist: map[int][]*wop{}}
+	w := &world{run: run, plan: plan, member: map[int]tri{}, everMember: map[int]bool{}, hist: map[int][]*wop{}, lastLeader: -1}
 	w.ncids = int(plan.Knob("ncids", 3))
 	w.ctx, w.stop = context.WithCancel(context.Background())
 	w.slots = int(plan.Knob("slots", 3))
@@ -705,6 +778,25 @@ func (w *world) drain() {
 
 func (w *world) step(s Step) {
 	run := w.run
+	// 100 = whoever leads now; remembered so that "the leader" of an isolate step
+	// and of the removal that follows it is the same peer
+	if s.At == 100 || s.Slot == 100 {
+		if s.Op == "isolate" || w.lastLeader < 0 {
+			w.lastLeader = -1
+			if l := w.leader(); l != nil {
+				w.lastLeader = l.slot
+			}
+		}
+		if w.lastLeader < 0 {
+			return
+		}
+		if s.At == 100 {
+			s.At = w.lastLeader
+		}
+		if s.Slot == 100 {
+			s.Slot = w.lastLeader
+		}
+	}
 	switch s.Op {
 	case "wait":
 		sleep(time.Duration(s.Ms) * time.Millisecond)
@@ -848,6 +940,16 @@ func (w *world) joinOp(s Step) {
 		}
 		// the same machine again: same folders (what Clean left, and its backups)
 		base := filepath.Join(w.base, fmt.Sprintf("p%d-g0", s.Slot))
+		if w.cur[s.Slot] != nil && w.member[s.Slot] != no {
+			// The peer stopped itself and wiped its Raft data although no removal of
+			// it was ever acknowledged (the peerset watcher acts on the latest, possibly
+			// uncommitted, configuration), and now it comes back under the same identity
+			// with an empty log: Raft's assumptions (a voter never forgets) no longer
+			// hold, nothing about agreement is promised from here on. Observation,
+			// DESIGN.md section 0.5.
+			w.amnesia = true
+			w.run.Probe("rejoin_after_unacknowledged_self_removal")
+		}
 		if w.cur[s.Slot] != nil {
 			base = w.cur[s.Slot].base
 			w.cur[s.Slot].host.Close()
@@ -1299,8 +1401,15 @@ func (w *world) startOp(s Step) {
 	}
 	w.run.Fault("restart")
 	w.net.Uncut(s.Slot)
-	nn := w.start(s.Slot, base, false, nil)
-	nn.readyJudged = true
+	// a peer that was started to join and never got in comes back the same way
+	// (restarting it without the bootstrap flag would found a cluster of its own)
+	again := n.staging && !n.readySeen
+	nn := w.start(s.Slot, base, again, nil)
+	if again {
+		nn.joinBefore, nn.joinTouched = n.joinBefore, n.joinTouched
+	} else {
+		nn.readyJudged = true
+	}
 	for j := 0; j < w.slots; j++ {
 		if j != s.Slot && w.cur[j] != nil && w.cur[j].alive && !w.net.IsCut(s.Slot, j) {
 			w.net.Connect(s.Slot, j)
@@ -1317,7 +1426,7 @@ func (w *world) startOp(s Step) {
 func (w *world) settle(what string) {
 	sleep(time.Duration(4*w.plan.Knob("heartbeat_ms", 200)+500) * time.Millisecond)
 	w.judgeReady()
-	if !w.quiet() || w.zombies {
+	if !w.quiet() {
 		return
 	}
 	for _, n := range w.cur {
@@ -1331,6 +1440,10 @@ func (w *world) settle(what string) {
 // agreement: every remaining member reports the same peerset, and it is the
 // one the acknowledged changes lead to.
 func (w *world) agreement(what string, bound time.Duration) {
+	if w.amnesia {
+		w.run.Probe("agreement_not_judged_after_amnesiac_rejoin")
+		return
+	}
 	deadline := time.Now().Add(bound)
 	var last string
 	for {
@@ -1353,9 +1466,36 @@ func (w *world) agreementOnce() string {
 	var views []string
 	var ref []int
 	first := true
+	// what the certain members say decides about the uncertain ones: a peer whose
+	// removal was reported as failed, but took effect, may never hear of it (the
+	// leader elected afterwards already has a peerset without it) and goes on
+	// believing it is a member: it is not one of the remaining members
+	var certain []int
+	for i := 0; i < w.slots; i++ {
+		if w.member[i] == yes {
+			if n := w.up(i); n != nil {
+				if ps, err := w.peersOf(n); err == nil {
+					certain = ps
+					break
+				}
+			}
+		}
+	}
 	for i := 0; i < w.slots; i++ {
 		if w.member[i] == no {
 			continue
+		}
+		if w.member[i] == maybe && certain != nil {
+			listed := false
+			for _, x := range certain {
+				if x == i {
+					listed = true
+				}
+			}
+			if !listed {
+				w.run.Probe("uncertain_member_not_listed_by_certain_ones")
+				continue
+			}
 		}
 		n := w.up(i)
 		if n == nil {
@@ -1437,11 +1577,13 @@ func (w *world) finale() {
 			return
 		}
 	}
+	// (an ex-member that could not hear of its removal may be running: it is not
+	// one of the remaining members, whose agreement is judged all the same; only
+	// the progress demand below is dropped then)
 	if w.zombies {
-		run.Probe("final_agreement_skipped_zombie")
-	} else {
-		w.agreement("at the end", 60*time.Second)
+		run.Probe("unaware_ex_member_running_at_the_end")
 	}
+	w.agreement("at the end", 60*time.Second)
 	if run.Violated() {
 		return
 	}
@@ -1456,7 +1598,7 @@ func (w *world) finale() {
 	if any == nil {
 		return
 	}
-	if !w.zombies {
+	if !w.zombies && !w.amnesia {
 		err, ret := call(60*time.Second, func() error {
 			_, e := any.cl.Pin(context.Background(), simkit.TestCid(99), api.PinOptions{Name: "final", ReplicationFactorMin: -1, ReplicationFactorMax: -1})
 			return e
